@@ -39,7 +39,7 @@ def gen_program(r, nid):
 def run(chk):
     chk.recheck_proofs()
     r = random.Random(chk.seed * 7919 + 18)
-    n = 400 if chk.tier == "quick" else 6000
+    n = 400 if chk.tier == "quick" else 60000
     progs = []
     for _ in range(n):
         progs.append(gen_program(r, [0]))
